@@ -17,6 +17,12 @@ CHECKS = {
         text="K13a: for every pattern of length <=4 (quick) / <=6 (thorough) over a metacharacter-complete 10-character alphabet the regular expression the real translate() returns is compiled (via CPython's own regex parser) to a z3 regex and proved language-equal to the documented meaning - unsat means no name of any length distinguishes them; sat models are replayed on qnmatch.qnmatch. K13b: CrossHair exhausts every rule list of <=3 (4) rules x privacy x pattern kind x name shape against the precedence sentence of the manual. Bounded in pattern length and rule count only.",
         note="Trusted: z3 sequence theory, CPython re._parser as the meaning of regex text, lib/rx2z3.py (validated each run against re on sample names and on every witness), CrossHair exhaustion verdict. '-' ranges in brackets are outside the claim.",
     ),
+    "C17": dict(
+        level="model_checking", design="DESIGN.md §3 C17",
+        technique="CrossHair (z3): symbolic strings through the inventory line parser/writer round trip and getLink; solver-exhausted token vectors, chunked payloads under a stubbed decompressor, and visibility tables for reader totality and writer/reader agreement (pydoctor reader and Sphinx loader)",
+        text="Bounded model checking. Round trip and getLink are confirmed over all paths for symbolic name/url/location strings up to 3 (4) characters. Reader totality (_parseInventoryLine, _parseInventory, update, _getPayload) is decided for every line of <=4 (6) tokens from a 9-token table and every payload of <=3 (4) chunks from an 8-chunk table x decompressor behaviour; the writer is decided on an 11-object model under all 2048 hidden/visible tables and read back by both readers.",
+        note="Trusted: CrossHair exhaustion verdict; token/chunk tables as the abstraction of malformed input (stated in evidence); Sphinx 9.1 loader as foreign reader; zlib stub contract.",
+    ),
 }
 
 NOT_APPLICABLE = {
